@@ -9,13 +9,16 @@ from harness.common.core import rat
 from harness.gen import unitcell as gen_unitcell
 
 ID = "C12"
-LEAN_TARGETS = ["ChmpyVerif.Props.C12"]
+LEAN_TARGETS = ["ChmpyVerif.Props.C12", "ChmpyVerif.Props.C12Orient"]
 T = "ChmpyVerif.Props.C12."
 THEOREMS = [T + n for n in (
     "volume_pos", "volume_sq", "direct_mul_inverse", "inverse_mul_direct", "frac_cart_roundtrip",
     "frac_cart_roundtrip_batch", "row_norms", "row_dots", "volume_eq_det", "star_lengths", "star_lengths_pos",
     "star_angles", "inverse_unique", "valid_ofAngles", "params_of_vectors_of_params", "deg_rad_roundtrip",
     "valid_orthogonal", "valid_monoclinic", "valid_hexagonal", "gram_rhombohedral", "valid_rhombohedral")]
+# the lattice-vector route in any orientation (general matrix algebra, no generated definitions)
+THEOREMS += [T + n for n in ("metric_apply", "metric_orientation_invariant", "inverse_of_reoriented", "reciprocal_metric_orientation_invariant",
+                             "roundtrip_any", "det_of_reoriented", "det_sq_orientation_invariant")]
 TRUSTED = [
     "translator harness/gen/pyexpr.py + unitcell.py (symbolic execution of set_lengths_and_angles, volume, a_star.., alpha_star.. "
     "into Lean definitions over ℝ and Float by one printer); validated on every run by executing the Float definitions against the real class",
@@ -170,7 +173,7 @@ def check_cell(uc, prm, tag, rng):
     amp = 1.0 / math.sqrt(g)            # conditioning of the cell
     rt = 1e-9 * amp * amp
     n = np.linalg.norm
-    if not np.allclose(D @ I, np.eye(3), atol=rt * 10) or not np.allclose(I @ D, np.eye(3), atol=rt * 10):
+    if not np.allclose(D @ I, np.eye(3), rtol=0, atol=rt * 10) or not np.allclose(I @ D, np.eye(3), rtol=0, atol=rt * 10):
         return f"{tag}: direct @ inverse != identity (max dev {np.abs(D @ I - np.eye(3)).max():.3g})"
     lens = [n(D[0]), n(D[1]), n(D[2])]
     if not np.allclose(lens, [a, b, c], rtol=1e-9):
@@ -178,9 +181,9 @@ def check_cell(uc, prm, tag, rng):
     if not np.allclose(np.asarray(uc.lengths, dtype=float), [a, b, c], rtol=1e-9):
         return f"{tag}: reported lengths {list(uc.lengths)} != {(a, b, c)}"
     angs = [angle_between(D[1], D[2]), angle_between(D[0], D[2]), angle_between(D[0], D[1])]
-    if not np.allclose(angs, [al, be, ga], atol=1e-7):
+    if not np.allclose(angs, [al, be, ga], rtol=0, atol=1e-7):
         return f"{tag}: inter-vector angles {angs} != parameters {(al, be, ga)}"
-    if not np.allclose(np.asarray(uc.angles, dtype=float), [al, be, ga], atol=1e-7):
+    if not np.allclose(np.asarray(uc.angles, dtype=float), [al, be, ga], rtol=0, atol=1e-7):
         return f"{tag}: reported angles {list(uc.angles)} != {(al, be, ga)}"
     vol = uc.volume()
     if not (vol > 0 and abs(vol - np.linalg.det(D)) <= 1e-9 * amp * abs(vol) * 10):
@@ -191,20 +194,20 @@ def check_cell(uc, prm, tag, rng):
         return f"{tag}: reciprocal lengths {stars} != column norms of inverse {cols}"
     sang = [uc.alpha_star, uc.beta_star, uc.gamma_star]
     cang = [angle_between(I[:, 1], I[:, 2]), angle_between(I[:, 0], I[:, 2]), angle_between(I[:, 0], I[:, 1])]
-    if not np.allclose(sang, cang, atol=1e-6 * amp):
+    if not np.allclose(sang, cang, rtol=0, atol=1e-6 * amp):
         return f"{tag}: reciprocal angles {sang} != angles between reciprocal vectors {cang}"
     R = np.asarray(uc.reciprocal_lattice, dtype=float)
-    if not np.allclose(R @ D.T, np.eye(3), atol=rt * 10):
+    if not np.allclose(R @ D.T, np.eye(3), rtol=0, atol=rt * 10):
         return f"{tag}: reciprocal_lattice rows are not dual to the lattice vectors"
     pts = np.array([[rng.uniform(-3, 3) for _ in range(3)] for _ in range(rng.randint(1, 7))])
     back = uc.to_fractional(uc.to_cartesian(pts))
-    if not np.allclose(back, pts, atol=rt * 100):
+    if not np.allclose(back, pts, rtol=0, atol=rt * 100):
         return f"{tag}: to_fractional(to_cartesian(x)) != x (max dev {np.abs(back - pts).max():.3g})"
     cart = pts * max(a, b, c)
     back = uc.to_cartesian(uc.to_fractional(cart))
-    if not np.allclose(back, cart, atol=rt * 100 * max(a, b, c)):
+    if not np.allclose(back, cart, rtol=0, atol=rt * 100 * max(a, b, c)):
         return f"{tag}: to_cartesian(to_fractional(x)) != x (max dev {np.abs(back - cart).max():.3g})"
-    if not np.allclose(uc.to_cartesian(pts), pts @ D, atol=1e-9 * max(a, b, c)):
+    if not np.allclose(uc.to_cartesian(pts), pts @ D, rtol=0, atol=1e-9 * max(a, b, c)):
         return f"{tag}: to_cartesian is not x @ direct"
     return None
 
